@@ -118,6 +118,13 @@ def ref_history(cfg, x, etas=None, lams=None):
             boundary = _near(mu, 0.0, ATOL) or (test != "kaplan_kolmogorov" and _near(mu, u, ATOL, RTOL))
             if boundary:
                 acc.append(1.0)
+            vanished = defined and T < 0 and abs(T) <= 2 * ATOL
+            if vanished:
+                # a negative product (an over-bet) within the code's tolerance of 0: "martingale effectively vanishes;
+                # p-value 1" is the library's documented convention on either side of 0 (for T >= 0 it coincides with
+                # min(1, 1/T)); the formula's value is accepted as well
+                acc.append(1.0)
+                boundary = True
             if exceeds_now:
                 acc.append(0.0)
             if test != "kaplan_kolmogorov" and mu > u:
